@@ -160,7 +160,7 @@ class Gen:
         self.expect[fname] = dict(kind=kind, macro=macro, level=level, prefix=[k for k, _ in prefix],
                                   names=(["message"] if (msrc and kind == "event") else []) + names,
                                   markers=markers, sigils=sigils, eager=eager, msg_markers=mmarkers, has_message=bool(msrc and kind == "event"),
-                                  target=dict(prefix).get("target"), name=dict(prefix).get("name"))
+                                  target=dict(prefix).get("target"), name=dict(prefix).get("name"), parent=dict(prefix).get("parent"))
 
     def render(self, crate):
         out = ["// @generated by fixtures/gen_fixtures.py — do not edit",
